@@ -22,6 +22,9 @@ type Unit struct {
 	Functions []string `json:"functions"`
 	Thorough  []string `json:"thorough_functions"`
 	Trusted   []string `json:"trusted"` // overrides the property-level list for this unit
+	// ExtraContracts: additional contract file base names to load besides zz_verif_contracts.go
+	// (e.g. zz_verif_contracts_readonly.go: contracts that only one property wants in scope)
+	ExtraContracts []string `json:"extra_contract_files"`
 }
 
 type PropSpec struct {
@@ -74,7 +77,7 @@ func loadPropSpec(id string) (*PropSpec, error) {
 
 // loadContracts parses the trusted specs and the zz_verif_contracts.go files of the loaded
 // in-repo packages.
-func loadContracts(P *Program, trusted []string, overlay map[string][]byte) (*ContractSet, []string, error) {
+func loadContracts(P *Program, trusted []string, overlay map[string][]byte, extra ...string) (*ContractSet, []string, error) {
 	cs := newContractSet()
 	cs.Ghosts["held"] = &GhostDecl{Name: "held", Type: "map[ptr]bool", Src: "builtin"}
 	cs.Ghosts["closed"] = &GhostDecl{Name: "closed", Type: "map[ptr]bool", Src: "builtin"}
@@ -110,7 +113,7 @@ func loadContracts(P *Program, trusted []string, overlay map[string][]byte) (*Co
 			continue
 		}
 		for _, gf := range pkg.CompiledGoFiles {
-			if filepath.Base(gf) != "zz_verif_contracts.go" {
+			if base := filepath.Base(gf); base != "zz_verif_contracts.go" && !contains(extra, base) {
 				continue
 			}
 			var err error
@@ -150,7 +153,7 @@ func runUnits(ps *PropSpec, opts Options, overlay map[string][]byte) *runOutput 
 		if len(u.Trusted) > 0 {
 			trusted = u.Trusted
 		}
-		cs, files, err := loadContracts(P, trusted, overlay)
+		cs, files, err := loadContracts(P, trusted, overlay, u.ExtraContracts...)
 		if err != nil {
 			out.EngineErrs = append(out.EngineErrs, fmt.Sprintf("contracts: %v", err))
 			continue
